@@ -23,7 +23,8 @@ CLAIMED = {
         "scaled again) and every write path divides by it once before the raw write (a value the float scale cannot represent is an "
         "error, not silently rounded: defect F12, fixed); the Bin whose address a getter/setter requests carries every index of the "
         "piece asked for (segment, view or axial position, TOF index) in its own slot, and a getter builds the piece it returns from "
-        "the same indices. Value round trips, byte order, number-type conversion and header values are NOT decided.",
+        "the same indices; every whole-data operation of ProjData (fill, sum, extrema, norms, xapyb/sapyb, arithmetic) requests, inside its "
+        "loop over the segments, the segment of the TOF bin of an enclosing loop over all TOF bins. Value round trips, byte order, number-type conversion and header values are NOT decided.",
         technique="static analysis: must-facts dataflow over clang CFG (bounds), symbolic layout algebra on the address expression, "
         "must-pass-through (flush), resolved-callee provenance",
     ),
